@@ -135,6 +135,14 @@ def oracle_cpu(c, r):
         cons.append(int(c["loky_env"]))
     if not isinstance(v, int) or v < 1:
         return "cpu_count() = %r is not >= 1" % (v,)
+    if "phys" in c:
+        os_c = c["os"] if c["os"] else 1
+        user = min(cons[1:]) if len(cons) > 1 else os_c
+        exp = max(user, 1) if user < os_c else (c["phys"] if c["phys"] is not None else max(1, min(cons)))
+        if v != exp:
+            return ("cpu_count(only_physical_cores=True) = %d with %d physical cores, os.cpu_count()=%s and user limits %s: "
+                    "expected %d (a limit below the machine's CPU count wins over the physical count)" % (v, c["phys"] or -1, c["os"], cons[1:], exp))
+        return None if r.get("joblib") == v else "joblib.cpu_count(only_physical_cores=True) = %r differs from loky's %r" % (r.get("joblib"), v)
     for k in cons:
         if k >= 1 and v > k:
             return "cpu_count() = %d exceeds the constraint %d (constraints %s)" % (v, k, cons)
@@ -192,6 +200,15 @@ def gen_cpu(rng, quick, ncores):
                     if quick and rng.random() < 0.75:
                         continue
                     out.append({"mode": "cpu", "os": o, "aff": a, "cg": cg, "loky_env": e})
+    # only_physical_cores=True with a scripted physical-core count, under limits below and above it
+    for o in (16, 64):
+        for phys in (8, 16, None):
+            for a in [x for x in (None, 2, 5) if x is None or x <= ncores]:
+                for e in (None, "1", "3", "12", "1000"):
+                    for cg in (None, [150000, 100000]):
+                        if quick and rng.random() < 0.5:
+                            continue
+                        out.append({"mode": "cpu", "os": o, "aff": a, "cg": cg, "loky_env": e, "phys": phys})
     return out
 
 
@@ -713,7 +730,11 @@ def run(ctx):
                 cg = "(Some (cgroup_count (os_count %s) %s %s))" % (oz(c["os"]), "None" if q == "max" else "(Some %s)" % z(int(q)), z(int(p)))
             le = None if c["loky_env"] is None else int(c["loky_env"])
             args = "%s %s %s %s" % (oz(c["os"]), oz(r["aff_seen"]), cg, oz(le))
-            exprs.append("showr (Ok (cpu_count_model %s))" % args if fn == "cpu_count_model" else "showr (cpu_count %s false)" % args)
+            if "phys" in c:
+                exprs.append("showr (Ok (cpu_count_physical_model %s %s))" % (args, oz(c["phys"])) if fn == "cpu_count_model"
+                             else "showr (cpu_count %s %s true)" % (args, oz(c["phys"])))
+            else:
+                exprs.append("showr (Ok (cpu_count_model %s))" % args if fn == "cpu_count_model" else "showr (cpu_count %s None false)" % args)
             idx.append(i)
         vals = ctx.coq_eval_lines(req, DEFS_COMMON, exprs, name="c15_" + fn)
         n_model += len(vals)
